@@ -57,13 +57,15 @@ type Node struct {
 	ViewLdg  *verifhook.Ledger
 	Exec     *verifhook.BlockExecutor
 	ViewExec *verifhook.BlockExecutor
-	StateDB  storage.Storage
-	ChainDB  storage.Storage
-	BF       *blockfile.BlockFile
-	Admins   []*Key
-	evCh     chan verifhook.ExecutedEvent
-	sub      event.Subscription
-	closed   bool
+	// viewState is the store the view ledgers read
+	viewState storage.Storage
+	StateDB   storage.Storage
+	ChainDB   storage.Storage
+	BF        *blockfile.BlockFile
+	Admins    []*Key
+	evCh      chan verifhook.ExecutedEvent
+	sub       event.Subscription
+	closed    bool
 }
 
 var modules = []string{"appchain_mgr", "proposal_strategy_mgr", "rule_mgr", "node_mgr", "service_mgr", "role_mgr", "dapp_mgr"}
@@ -236,6 +238,7 @@ func (n *Node) open() {
 		panic(fmt.Sprintf("verif: ledger.New: %v", err))
 	}
 	n.ViewLdg = &verifhook.Ledger{ChainLedger: n.Ledger.ChainLedger}
+	n.viewState = stateForLedger
 	n.ViewLdg.StateLedger, err = verifhook.NewSimpleLedger(n.Repo, stateForLedger, nil, Logger)
 	if err != nil {
 		panic(err)
@@ -324,6 +327,22 @@ func (n *Node) ExecTxs(ts int64, txs ...pb.Transaction) (*verifhook.ExecutedEven
 // View runs read-only transactions on the view executor.
 func (n *Node) View(txs ...pb.Transaction) []*pb.Receipt {
 	return n.ViewExec.ApplyReadonlyTransactions(txs)
+}
+
+// FreshView executes the transactions read-only on a view ledger created for this call (what a node
+// that has just been started answers): the reference for "a view depends on committed state only".
+func (n *Node) FreshView(txs ...pb.Transaction) []*pb.Receipt {
+	vl := &verifhook.Ledger{ChainLedger: n.Ledger.ChainLedger}
+	var err error
+	vl.StateLedger, err = verifhook.NewSimpleLedger(n.Repo, n.viewState, nil, Logger)
+	if err != nil {
+		panic(err)
+	}
+	ve, err := verifhook.NewExecutor(vl, Logger, &verifhook.AppchainClient{}, n.Cfg, big.NewInt(0))
+	if err != nil {
+		panic(err)
+	}
+	return ve.ApplyReadonlyTransactions(txs)
 }
 
 // Close stops the executor and waits until the ledger stores are closed.
